@@ -6,7 +6,11 @@ import json
 
 import anyio
 
+import logging
+
 import lib
+_DISABLED_AT = logging.root.manager.disable
+logging.getLogger().addHandler(logging.NullHandler())     # module-level logging.error() must not install a console handler
 from lib import sx, call
 
 META = {
@@ -599,7 +603,8 @@ def gen_cases(ctx):
                         sid = rng.choice((None, None, "", "unknown-session", "<live>", "<live>", "<odd:0>", "<odd:1>", "<odd:2>", "<odd:3>",
                                           "<odd:4>"))
                         yield cfgname, {"cfg": cfgname, "method": method, "id": mid, "has_params": has_p, "params": p,
-                                        "how": how if via == "unified" else "specific", "session": sid}
+                                        "how": how if via == "unified" else "specific", "session": sid,
+                                        **({"debug_logging": True} if rng.random() < 0.25 else {})}
     # method-less and batch messages
     for cfgname in ("mcp", "bare"):
         for mid in [None] + IDS:
@@ -685,12 +690,25 @@ async def run_real(cases):
         sid = cfg.session if case["session"] == "<live>" else case["session"]
         if isinstance(sid, str) and sid.startswith("<odd:"):
             sid = cfg.odd_sessions[int(sid[5:-1])]
+        dbg = case.get("debug_logging")
+        if dbg:
+            # the application runs with its root logger at DEBUG (what `python -m chuk_mcp --verbose` sets up)
+            logging.disable(logging.NOTSET)
+            _root = logging.getLogger()
+            _lvl = _root.level
+            _root.setLevel(logging.DEBUG)
+            if not any(isinstance(h, logging.NullHandler) for h in _root.handlers):
+                _root.addHandler(logging.NullHandler())
         try:
             r = await cfg.ph.handle_message(msg, sid)
             o, wire = canon_outcome(r)
             returned_session = r[1] if isinstance(r, tuple) and len(r) == 2 else None
         except Exception as e:           # BaseException is outside the property (see ASSUME)
             o, wire, returned_session = ("raised", type(e).__name__), None, None
+        finally:
+            if dbg:
+                _root.setLevel(_lvl)
+                logging.disable(_DISABLED_AT)
         out.append((o, wire, returned_session))
     return out
 
